@@ -1,12 +1,12 @@
 import json, os, vlib
 
 THEOREMS = ["Folang.Props.C08." + t for t in """group_bin_tighter climb_spec climb_eq_group group_flatten insert_canon
-group_canon table_is_published fact_precedenceUses ranks_positive""".split()]
+group_canon table_is_published fact_precedenceUses ranks_positive climb_fuel tokSim exprP_eq_group""".split()]
 
 ASSUMPTIONS = [
     "model: parseExprWithPrec/parseBinAfter as precedence climbing over a chain of opaque operands (climb) and, for the oracle, over tokens with psSkipEOL (exprP/binAfter) plus a concrete term parser for names, applications, not and parentheses",
     "specification: insertion of each operator into the right spine (group), validated by group_flatten and group_canon",
-    "partial: the token-level parser (exprP with the concrete term parser) is tied to the chain-level theorem by execution in the oracle (every answer is re-checked against group) and to the real parser by the c08.chain stream, not by a Lean refinement proof",
+    "token level (Props/C08Tok.lean): exprP_eq_group — for ANY term parser that reads the tokens of every operand, the model of parseExprWithPrec/parseBinAfter WITH their psSkipEOL calls, on an operand followed by an operator chain with any number of ends of line before each operator, returns the reference grouping and consumes everything up to what follows the chain (tokSim: it equals the chain-level function climb for every minPrec, and the state it returns when it stops at a looser operator is the one after psSkipEOL, as in the code). The concrete term parser of the oracle (names, applications, not, parentheses) is tied by the c08.chain stream",
     "tie: regenerated binOpMap and uses of Precedence in gen_parser.go (go/ast); c08.chain stream: source text -> real parser + emitter -> grouping read back from the emitted Go with go/parser vs the model",
 ]
 
@@ -18,10 +18,10 @@ def run(ctx):
     fcdrv = ctx.build_fcdrv()
     ctx.assumptions += ASSUMPTIONS
     ctx.partial.append("token-level refinement (exprP = climb on rendered chains) is executed, not proved")
-    ctx.lake_build(["Folang.Props.C08", "Folang.Props.C08Facts"])
-    ctx.audit(THEOREMS, ["Folang.Props.C08", "Folang.Props.C08Facts"])
+    ctx.lake_build(["Folang.Props.C08", "Folang.Props.C08Facts", "Folang.Props.C08Tok"])
+    ctx.audit(THEOREMS, ["Folang.Props.C08", "Folang.Props.C08Facts", "Folang.Props.C08Tok"])
     if ctx.tier == "thorough":
-        ctx.leanchecker(["Folang.Props.C08", "Folang.Props.C08Facts"])
+        ctx.leanchecker(["Folang.Props.C08", "Folang.Props.C08Facts", "Folang.Props.C08Tok"])
     if ctx.tier == "quick":
         cmds = ["%d 2000 3" % ctx.seed]
     else:
